@@ -45,9 +45,10 @@ ProgSet3 == { <<Ix(3, 1)>>, <<Ix(2, 2)>>, <<Ix(5, 3)>>, <<Ix(6, 1)>>, <<Ix(14, 1
 \* rule 14: a log line followed by an error in the same call, as the LAST call of a thread (the line must still appear)
 \* rule 15: the ?: alias (same call repeated: the second call must behave exactly like the first)
 \* rule 16: an eager operator over `missing` (no var, no log): same rule, then other data, on the same thread
+\* rule 24: unknown single-key objects with array values as operands (plain data; nothing but the result is observable)
 \* rule 20 then 21: a `missing` that fails half-way, then another `missing` on the same thread;
 \* rules 22, 23: and / or whose last operand (a log) is reached because nothing decided earlier: one line, not two
-Aliasing == { <<Ix(20, 1), Ix(21, 1), Ix(21, 4)>>, <<Ix(22, 1), Ix(23, 1)>>, <<Ix(16, 1), Ix(16, 4), Ix(16, 1)>>, <<Ix(15, 1), Ix(15, 1)>>, <<Ix(13, 1), Ix(13, 1), Ix(13, 2)>>, <<Ix(2, 1), Ix(14, 1)>>, <<Ix(14, 2)>>, <<Ix(9, 4), Ix(9, 5), Ix(9, 6), Ix(9, 4)>>, <<Ix(10, 5), Ix(10, 4)>>, <<Ix(11, 4), Ix(11, 5), Ix(12, 6), Ix(12, 4)>>, <<Ix(1, 1), Ix(1, 2), Ix(1, 3)>> }
+Aliasing == { <<Ix(24, 1), Ix(24, 2)>>, <<Ix(20, 1), Ix(21, 1), Ix(21, 4)>>, <<Ix(22, 1), Ix(23, 1)>>, <<Ix(16, 1), Ix(16, 4), Ix(16, 1)>>, <<Ix(15, 1), Ix(15, 1)>>, <<Ix(13, 1), Ix(13, 1), Ix(13, 2)>>, <<Ix(2, 1), Ix(14, 1)>>, <<Ix(14, 2)>>, <<Ix(9, 4), Ix(9, 5), Ix(9, 6), Ix(9, 4)>>, <<Ix(10, 5), Ix(10, 4)>>, <<Ix(11, 4), Ix(11, 5), Ix(12, 6), Ix(12, 4)>>, <<Ix(1, 1), Ix(1, 2), Ix(1, 3)>> }
 DeepProgs == { <<DeepIx(1), DeepIx(2), DeepIx(1)>>, <<DeepIx(2), DeepIx(1)>>, <<DeepIx(1), Ix(9, 4), DeepIx(1)>> }
 \* big thread counts: the program assignments are enumerated (every thread the same kind of program, rotated),
 \* their interleavings are NOT explored by TLC (exponential) but sampled on real threads
